@@ -60,6 +60,8 @@ type RPC struct {
 	Via    string `json:"via,omitempty"`    // unary only: "invoke" (default) or "stream"
 	Method string `json:"method,omitempty"` // override of the full method name (disturbers)
 	Chan   string `json:"chan,omitempty"`   // "" = default channel; "key:<k>" = KeyAsChannel(k); "tunnel:<i>" = that tunnel's channel
+	AfterEvent int `json:"after_event,omitempty"` // the call may start only after event #(AfterEvent-1) has fired
+	Role    string `json:"role,omitempty"`       // bystander | disturber:<kind> | victim | probe (used by oracles)
 	Starter int   `json:"starter,omitempty"` // C08: RPCs with the same non-zero Starter group start in the same step from different goroutines
 
 	ReqMD   map[string][]string `json:"req_md,omitempty"`
@@ -90,6 +92,7 @@ type RPC struct {
 	HStallRecv  bool   `json:"hstall_recv,omitempty"`
 	HStallSend  bool   `json:"hstall_send,omitempty"`
 	HExtraSend  bool   `json:"hextra_send,omitempty"` // C16: handler sends twice on a non-streaming response side
+	HWaitRecv   bool   `json:"hwait_recv,omitempty"`  // handler returns only after its receiving side saw end-of-stream (or an error)
 	HWaitCtx    bool   `json:"hwait_ctx,omitempty"`   // handler waits for its context to end before returning
 	Code        int    `json:"code,omitempty"`
 	Msg         string `json:"msg,omitempty"`
